@@ -193,8 +193,20 @@ Qed.
 (* ---------- the round trips ---------- *)
 Section RoundTrip.
 Variable V : Type.
+Variable vtrue : V.
+Variable truthy : V -> bool.
+Hypothesis TRUE : truthy vtrue = true.     (* bool(np.array(True)) *)
 Variable kc : key_cfg.
 Hypothesis OK : key_cfg_ok kc = true.
+
+Notation attr_to_dict := (attr_to_dict vtrue).
+Notation elem_to_dict := (elem_to_dict vtrue).
+Notation attrs_to_dict := (attrs_to_dict vtrue).
+Notation eattrs_to_dict := (eattrs_to_dict vtrue).
+Notation attr_from_dict := (attr_from_dict truthy).
+Notation elem_from_dict := (elem_from_dict truthy).
+Notation attrs_from_dict := (attrs_from_dict truthy).
+Notation eattrs_from_dict := (eattrs_from_dict truthy).
 
 Lemma ok_parts :
   ids_test kc = TLastEq "ids" /\ data_test kc = TLastEq "data"
@@ -203,6 +215,8 @@ Proof.
   pose proof OK as H. unfold key_cfg_ok in H.
   apply andb_true_iff in H. destruct H as [H H4].
   apply andb_true_iff in H. destruct H as [H H3].
+  apply andb_true_iff in H. destruct H as [H _].
+  apply andb_true_iff in H. destruct H as [H _].
   apply andb_true_iff in H. destruct H as [H1 H2].
   destruct (ids_test kc) as [c|c|c]; cbv beta iota delta [ktest_good] in H1; try discriminate.
   apply String.eqb_eq in H1. subst c.
@@ -212,32 +226,48 @@ Proof.
   auto.
 Qed.
 
-Lemma attr_roundtrip : forall prefix (a : attr V),
-  attr_from_dict kc (attr_to_dict prefix a) = Ok a.
+Lemma ok_ts : ts_test kc = Some (TLastEq "time_series") /\ writes_ts kc = true.
 Proof.
-  intros prefix [i x]. destruct ok_parts as [E1 [E2 _]].
-  unfold attr_from_dict, attr_to_dict. simpl. rewrite E1, E2. simpl.
-  rewrite !last_seg_pfx by reflexivity. simpl. reflexivity.
+  pose proof OK as H. unfold key_cfg_ok in H.
+  apply andb_true_iff in H. destruct H as [H _].
+  apply andb_true_iff in H. destruct H as [H _].
+  apply andb_true_iff in H. destruct H as [H W].
+  apply andb_true_iff in H. destruct H as [_ T].
+  split; [|exact W].
+  destruct (ts_test kc) as [t|]; [|discriminate].
+  destruct t as [c|c|c]; cbv beta iota delta [ktest_good] in T; try discriminate.
+  apply String.eqb_eq in T. subst c. reflexivity.
+Qed.
+
+Lemma attr_roundtrip : forall prefix (a : attr V),
+  attr_from_dict kc (attr_to_dict kc prefix a) = Ok a.
+Proof.
+  intros prefix [[i x] ts]. destruct ok_parts as [E1 [E2 _]]. destruct ok_ts as [E3 W].
+  unfold KeyModel.attr_from_dict, KeyModel.attr_to_dict, len_ok, a_ids, a_data, a_ts. simpl.
+  rewrite W, E3. destruct ts; simpl; unfold ts_key; rewrite E1, E2, ?E3; simpl;
+    rewrite !last_seg_pfx by reflexivity; simpl; rewrite ?TRUE; reflexivity.
 Qed.
 
 Definition elem_items (prefix : option string) (e : eattr V) : list (string * dict V) :=
-  map (fun ta => (fst ta, attr_to_dict (Some (pfx prefix ++ fst ta)) (snd ta))) e.
+  map (fun ta => (fst ta, attr_to_dict kc (Some (pfx prefix ++ fst ta)) (snd ta))) e.
 
 Lemma elem_to_dict_items : forall prefix e,
-  elem_to_dict prefix e = flat_map snd (elem_items prefix e).
+  elem_to_dict kc prefix e = flat_map snd (elem_items prefix e).
 Proof.
-  intros prefix e. unfold elem_to_dict, elem_items. induction e as [|[t a] r IH]; simpl; auto.
+  intros prefix e. unfold KeyModel.elem_to_dict, elem_items. induction e as [|[t a] r IH]; simpl; auto.
   rewrite IH. reflexivity.
 Qed.
 
 Lemma map_fst_items : forall prefix e, map fst (elem_items prefix e) = map fst e.
 Proof. intros. unfold elem_items. rewrite map_map. reflexivity. Qed.
 
-Lemma attr_keys : forall prefix (a : attr V) kv, In kv (attr_to_dict prefix a) ->
-  fst kv = pfx prefix ++ "ids" \/ fst kv = pfx prefix ++ "data".
+Lemma attr_keys : forall prefix (a : attr V) kv, In kv (attr_to_dict kc prefix a) ->
+  exists s, no_slash s = true /\ fst kv = pfx prefix ++ s.
 Proof.
-  intros prefix a kv H. unfold attr_to_dict in H. simpl in H.
-  destruct H as [H|[H|[]]]; subst; simpl; auto.
+  intros prefix a kv H. unfold KeyModel.attr_to_dict in H. simpl in H.
+  destruct H as [H|[H|H]]; [subst; simpl; exists "ids"; auto|subst; simpl; exists "data"; auto|].
+  destruct (writes_ts kc && a_ts a); simpl in H; [|contradiction].
+  destruct H as [H|[]]. subst. simpl. exists "time_series". auto.
 Qed.
 
 Lemma forallb_map_fst : forall (A : Type) (p : string -> bool) (l : list (string * A)),
@@ -249,7 +279,7 @@ Qed.
 (* mixed element collections: any set of distinct element types of the table *)
 Theorem elem_roundtrip : forall prefix (e : eattr V),
   prefix_ok prefix = true -> wf_eattr kc e = true ->
-  exists e', elem_from_dict kc (elem_to_dict prefix e) = Ok e'
+  exists e', elem_from_dict kc (elem_to_dict kc prefix e) = Ok e'
     /\ (forall t, In t (map fst e') <-> In t (map fst e))
     /\ (forall t a, In (t, a) e' -> In (t, a) e).
 Proof.
@@ -262,29 +292,29 @@ Proof.
     by (apply forallb_map_fst; exact NS).
   (* every key carries the type of its item *)
   assert (KT : forall ta, In ta e -> forall kv,
-             In kv (attr_to_dict (Some (pfx prefix ++ fst ta)) (snd ta)) ->
+             In kv (attr_to_dict kc (Some (pfx prefix ++ fst ta)) (snd ta)) ->
              extract_type (fst kv) = Some (fst ta)).
-  { intros ta Hta kv Hkv. destruct (attr_keys _ _ _ Hkv) as [E|E]; rewrite E;
+  { intros ta Hta kv Hkv. destruct (attr_keys _ _ _ Hkv) as [s0 [S0 E]]; rewrite E;
       apply extract_type_key; auto. }
-  unfold elem_from_dict.
-  set (d := elem_to_dict prefix e).
+  unfold KeyModel.elem_from_dict.
+  set (d := elem_to_dict kc prefix e).
   assert (MO : mapO (fun kv => extract_type (fst kv)) d
                = Some (map (fun kv => match extract_type (fst kv) with Some t => t | None => "" end) d)).
-  { apply mapO_all. intros kv Hkv. unfold d, elem_to_dict in Hkv.
+  { apply mapO_all. intros kv Hkv. unfold d, KeyModel.elem_to_dict in Hkv.
     apply in_flat_map in Hkv. destruct Hkv as [ta [Hta Hkv]].
     rewrite (KT ta Hta kv Hkv). reflexivity. }
   rewrite MO. clear MO.
   set (ts := map (fun kv => match extract_type (fst kv) with Some t => t | None => "" end) d).
   assert (TS : forall t, In t ts <-> In t (map fst e)).
   { intros t. unfold ts. rewrite in_map_iff. split.
-    - intros [kv [E Hkv]]. unfold d, elem_to_dict in Hkv.
+    - intros [kv [E Hkv]]. unfold d, KeyModel.elem_to_dict in Hkv.
       apply in_flat_map in Hkv. destruct Hkv as [ta [Hta Hkv]].
       rewrite (KT ta Hta kv Hkv) in E. subst t. apply in_map. exact Hta.
     - intros Ht. apply in_map_iff in Ht. destruct Ht as [[t' a] [E Hta]]. simpl in E. subst t'.
-      exists (pfx (Some (pfx prefix ++ t)) ++ "ids", fst a). split.
+      exists (pfx (Some (pfx prefix ++ t)) ++ "ids", a_ids a). split.
       + cbv beta iota delta [fst].
         rewrite (extract_type_key prefix t "ids" P (NSt _ Hta) eq_refl). reflexivity.
-      + unfold d, elem_to_dict. apply in_flat_map. exists (t, a). split; auto.
+      + unfold d, KeyModel.elem_to_dict. apply in_flat_map. exists (t, a). split; auto.
         simpl. left. reflexivity. }
   (* decoding of each group *)
   destruct (mapM_rel _ _
@@ -297,7 +327,7 @@ Proof.
     apply in_map_iff in Ht. destruct Ht as [[t' a] [E Hta]]. simpl in E. subst t'.
     exists (t, a). split; [|split; auto].
     assert (G : filter (fun kv => kmatch_eval (elem_group kc) t (fst kv)) d
-                = attr_to_dict (Some (pfx prefix ++ t)) a).
+                = attr_to_dict kc (Some (pfx prefix ++ t)) a).
     { unfold d. rewrite elem_to_dict_items.
       apply (group_filter V (kmatch_eval (elem_group kc)) (elem_items prefix e)).
       - intros l dd Hl kv Hkv l' Hl'. unfold elem_items in Hl. apply in_map_iff in Hl.
@@ -322,7 +352,7 @@ Qed.
 (* collections of plain attributes (nodal data, constraints): any names *)
 Theorem attrs_roundtrip : forall (c : list (string * attr V)),
   wf_names (map fst c) = true ->
-  exists c', attrs_from_dict kc (attrs_to_dict c) = Ok c'
+  exists c', attrs_from_dict kc (attrs_to_dict kc c) = Ok c'
     /\ (forall n, In n (map fst c') <-> In n (map fst c))
     /\ (forall n a, In (n, a) c' -> In (n, a) c).
 Proof.
@@ -331,24 +361,24 @@ Proof.
   apply nodup_strs_NoDup in ND.
   assert (NSn : forall na, In na c -> no_slash (fst na) = true)
     by (apply forallb_map_fst; exact NS).
-  set (items := map (fun na : string * attr V => (fst na, attr_to_dict (Some (fst na)) (snd na))) c).
-  assert (DI : attrs_to_dict c = flat_map snd items).
-  { unfold attrs_to_dict, items. clear. induction c as [|[n a] r IH]; simpl; auto. rewrite IH. reflexivity. }
-  assert (KF : forall na, In na c -> forall kv, In kv (attr_to_dict (Some (fst na)) (snd na)) ->
+  set (items := map (fun na : string * attr V => (fst na, attr_to_dict kc (Some (fst na)) (snd na))) c).
+  assert (DI : attrs_to_dict kc c = flat_map snd items).
+  { unfold KeyModel.attrs_to_dict, items. clear. induction c as [|[n a] r IH]; simpl; auto. rewrite IH. reflexivity. }
+  assert (KF : forall na, In na c -> forall kv, In kv (attr_to_dict kc (Some (fst na)) (snd na)) ->
                  first_seg (fst kv) = fst na).
-  { intros na Hna kv Hkv. destruct (attr_keys _ _ _ Hkv) as [E|E]; rewrite E;
+  { intros na Hna kv Hkv. destruct (attr_keys _ _ _ Hkv) as [s0 [S0 E]]; rewrite E;
       apply first_seg_key; auto. }
-  unfold attrs_from_dict.
-  set (d := attrs_to_dict c).
+  unfold KeyModel.attrs_from_dict.
+  set (d := attrs_to_dict kc c).
   assert (GN : forall n, In n (group_names V d) <-> In n (map fst c)).
   { intros n. unfold group_names. rewrite uniq_sorted_in, in_map_iff. split.
-    - intros [kv [E Hkv]]. unfold d, attrs_to_dict in Hkv. apply in_flat_map in Hkv.
+    - intros [kv [E Hkv]]. unfold d, KeyModel.attrs_to_dict in Hkv. apply in_flat_map in Hkv.
       destruct Hkv as [na [Hna Hkv]]. rewrite (KF na Hna kv Hkv) in E. subst n.
       apply in_map. exact Hna.
     - intros Hn. apply in_map_iff in Hn. destruct Hn as [[n' a] [E Hna]]. simpl in E. subst n'.
-      exists (pfx (Some n) ++ "ids", fst a). split.
+      exists (pfx (Some n) ++ "ids", a_ids a). split.
       + cbv beta iota delta [fst]. apply first_seg_key. apply (NSn _ Hna).
-      + unfold d, attrs_to_dict. apply in_flat_map. exists (n, a). split; auto. simpl. auto. }
+      + unfold d, KeyModel.attrs_to_dict. apply in_flat_map. exists (n, a). split; auto. simpl. auto. }
   destruct (mapM_rel _ _
               (fun n => bind (attr_from_dict kc
                                 (filter (fun kv => kmatch_eval (attrs_group kc) n (fst kv)) d))
@@ -359,7 +389,7 @@ Proof.
     destruct Hn as [[n' a] [E Hna]]. simpl in E. subst n'.
     exists (n, a). split; [|split; auto].
     assert (G : filter (fun kv => kmatch_eval (attrs_group kc) n (fst kv)) d
-                = attr_to_dict (Some n) a).
+                = attr_to_dict kc (Some n) a).
     { unfold d. rewrite DI.
       apply (group_filter V (kmatch_eval (attrs_group kc)) items).
       - intros l dd Hl kv Hkv l' Hl'. unfold items in Hl. apply in_map_iff in Hl.
@@ -377,7 +407,7 @@ Qed.
    of element types *)
 Theorem eattrs_roundtrip : forall (c : list (string * eattr V)),
   wf_names (map fst c) = true -> forallb (fun ne => wf_eattr kc (snd ne)) c = true ->
-  exists c', eattrs_from_dict kc (eattrs_to_dict c) = Ok c'
+  exists c', eattrs_from_dict kc (eattrs_to_dict kc c) = Ok c'
     /\ (forall n, In n (map fst c') <-> In n (map fst c))
     /\ (forall n e', In (n, e') c' -> exists e, In (n, e) c
           /\ (forall t, In t (map fst e') <-> In t (map fst e))
@@ -389,32 +419,32 @@ Proof.
   assert (NSn : forall ne, In ne c -> no_slash (fst ne) = true)
     by (apply forallb_map_fst; exact NS).
   rewrite forallb_forall in WE.
-  set (items := map (fun ne : string * eattr V => (fst ne, elem_to_dict (Some (fst ne)) (snd ne))) c).
-  assert (DI : eattrs_to_dict c = flat_map snd items).
-  { unfold eattrs_to_dict, items. clear. induction c as [|[n a] r IH]; simpl; auto. rewrite IH. reflexivity. }
-  assert (KF : forall ne, In ne c -> forall kv, In kv (elem_to_dict (Some (fst ne)) (snd ne)) ->
+  set (items := map (fun ne : string * eattr V => (fst ne, elem_to_dict kc (Some (fst ne)) (snd ne))) c).
+  assert (DI : eattrs_to_dict kc c = flat_map snd items).
+  { unfold KeyModel.eattrs_to_dict, items. clear. induction c as [|[n a] r IH]; simpl; auto. rewrite IH. reflexivity. }
+  assert (KF : forall ne, In ne c -> forall kv, In kv (elem_to_dict kc (Some (fst ne)) (snd ne)) ->
                  first_seg (fst kv) = fst ne).
-  { intros ne Hne kv Hkv. unfold elem_to_dict in Hkv. apply in_flat_map in Hkv.
+  { intros ne Hne kv Hkv. unfold KeyModel.elem_to_dict in Hkv. apply in_flat_map in Hkv.
     destruct Hkv as [ta [Hta Hkv]].
-    destruct (attr_keys _ _ _ Hkv) as [E|E]; rewrite E; simpl;
+    destruct (attr_keys _ _ _ Hkv) as [s0 [S0 E]]; rewrite E; simpl;
       rewrite !append_assoc; simpl; unfold first_seg;
       rewrite split_app, (split_noslash _ (NSn _ Hne)); reflexivity. }
-  unfold eattrs_from_dict.
-  set (d := eattrs_to_dict c).
+  unfold KeyModel.eattrs_from_dict.
+  set (d := eattrs_to_dict kc c).
   assert (GN : forall n, In n (group_names V d) <-> In n (map fst c)).
   { intros n. unfold group_names. rewrite uniq_sorted_in, in_map_iff. split.
-    - intros [kv [E Hkv]]. unfold d, eattrs_to_dict in Hkv. apply in_flat_map in Hkv.
+    - intros [kv [E Hkv]]. unfold d, KeyModel.eattrs_to_dict in Hkv. apply in_flat_map in Hkv.
       destruct Hkv as [ne [Hne Hkv]]. rewrite (KF ne Hne kv Hkv) in E. subst n.
       apply in_map. exact Hne.
     - intros Hn. apply in_map_iff in Hn. destruct Hn as [[n' e] [E Hne]]. simpl in E. subst n'.
       pose proof (WE _ Hne) as W. simpl in W. unfold wf_eattr in W.
       apply andb_true_iff in W. destruct W as [_ NE].
       destruct e as [|[t a] r]; [discriminate|].
-      set (kv := (pfx (Some (pfx (Some n) ++ t)) ++ "ids", fst a)).
-      assert (Hkv : In kv (elem_to_dict (Some n) ((t, a) :: r))) by (simpl; auto).
+      set (kv := (pfx (Some (pfx (Some n) ++ t)) ++ "ids", a_ids a)).
+      assert (Hkv : In kv (elem_to_dict kc (Some n) ((t, a) :: r))) by (simpl; auto).
       exists kv. split.
       + apply (KF (n, (t, a) :: r) Hne kv Hkv).
-      + unfold d, eattrs_to_dict. apply in_flat_map. exists (n, (t, a) :: r). split; auto. }
+      + unfold d, KeyModel.eattrs_to_dict. apply in_flat_map. exists (n, (t, a) :: r). split; auto. }
   destruct (mapM_rel _ _
               (fun n => bind (elem_from_dict kc
                                 (filter (fun kv => kmatch_eval (attrs_group kc) n (fst kv)) d))
@@ -426,7 +456,7 @@ Proof.
   { intros n Hn. apply (proj1 (GN _)) in Hn. apply in_map_iff in Hn.
     destruct Hn as [[n' e] [E Hne]]. simpl in E. subst n'.
     assert (G : filter (fun kv => kmatch_eval (attrs_group kc) n (fst kv)) d
-                = elem_to_dict (Some n) e).
+                = elem_to_dict kc (Some n) e).
     { unfold d. rewrite DI.
       apply (group_filter V (kmatch_eval (attrs_group kc)) items).
       - intros l dd Hl kv Hkv l' Hl'. unfold items in Hl. apply in_map_iff in Hl.
